@@ -14,7 +14,11 @@
    (mm.hpp:193-226) is modelled as "append to bucket i" on a list of [chunk] buckets with a
    BOUNDS-CHECKED update (index outside the bucket list = [Error EOOB], the image of the
    out-of-bounds `++ptr[i - row_beg + 1]`); the order of entries inside a bucket is the
-   order of the push_backs, which is what the scatter loop produces.  The glue that splits
+   order of the push_backs, which is what the scatter loop produces.  Index arithmetic is done
+   in Z: `i -= 1; j -= 1` (mm.hpp:188-189) on an index token equal to INT64_MIN is a signed
+   overflow (UB) in the code and plain i-1 here -- found by the harness (UBSan), listed as
+   known finding C19-mm-index-decrement-overflow; a range precondition placed BEFORE the
+   decrement (which is what [chk_index] stands for) removes it.  The glue that splits
    a byte file into lines/tokens (std::getline, operator>> on isspace) lives in
    ocaml/fileio and is validated by byte-exact comparison with the real files.
 
@@ -85,7 +89,7 @@ Definition slice {V} (r0 r1 : Z) (A : crs V) : crs V :=
 Definition two63 : Z := 9223372036854775808.
 Definition two64 : Z := 18446744073709551616.
 (* harness allocation cap (bytes): a request above it is answered with std::bad_alloc *)
-Definition alloc_cap : Z := 268435456.
+Definition alloc_cap : Z := 16777216.
 
 Definition digit_of (c : ascii) : option (uint -> uint) :=
   match c with
@@ -248,8 +252,12 @@ Definition mm_read_sparse (fl : mm_flags) (vk : kind) (h : header) (row_beg row_
   let nnz' := s64 (if h_symmetric h then 2 * nz else nz) in
   let chunk := r1 - r0 in
   let partial := negb ((r0 =? 0) && (r1 =? n)) in
-  _ <- guard (negb partial || (negb (n =? 0) && (0 <=? Z.quot (nnz' * 6 * chunk) (5 * n)))) EAlloc ;;
-  _ <- guard (alloc_ok nnz' 8 && alloc_ok nnz' vwidth) EAlloc ;;
+  let hint := Z.quot (nnz' * 6 * chunk) (5 * n) in
+  _ <- guard (negb partial || (negb (n =? 0) && (0 <=? hint))) EAlloc ;;
+  (* size actually requested: the scaled hint when the announced count is negative (then only
+     the scaled value can be non-negative), else the unscaled count (factor 1.2 ignored) *)
+  let cap_arg := if partial && (nnz' <? 0) then hint else nnz' in
+  _ <- guard (alloc_ok cap_arg 8 && alloc_ok cap_arg vwidth) EAlloc ;;
   _ <- guard (alloc_ok (chunk + 1) 8) EAlloc ;;          (* ptr.resize(chunk + 1) *)
   '(st, rest) <- read_entries fl (h_symmetric h) n m r0 r1 (h_body h) nz
                    (repeat [] (Z.to_nat chunk)) ;;
